@@ -41,6 +41,7 @@ const (
 	PrioReverse      = 2 // main highest, workers in reverse spawn order
 	PrioRandom       = 3 // every task gets a pseudo-random priority (PCT)
 	PrioRandomMainLo = 4 // random worker priorities, main lowest
+	PrioRandomMainHi = 5 // main highest (it spawns everything it can first), workers in random order
 )
 
 // Reasons recorded with each decision.
@@ -301,6 +302,11 @@ func prioFor(tid int32) int64 {
 			return math.MaxInt64 / 2
 		}
 		return int64(tid)
+	case PrioRandomMainHi:
+		if tid == 0 {
+			return math.MaxInt64 / 2
+		}
+		return int64(mix64(prioSeed^uint64(tid)*0x9e3779b97f4a7c15) >> 3)
 	case PrioRandomMainLo:
 		if tid == 0 {
 			return math.MinInt64/2 + 1
